@@ -944,6 +944,129 @@ Proof.
       inversion Eo; subst st0. cbn [length]. rewrite <- (IH _ _ E). reflexivity.
 Qed.
 
+(* ---------- the fuel suffices; the only failure of the writer is LOGINT ---------- *)
+(* chunks still to be closed by this call: sum over the levels of (written + count) / MAX *)
+Fixpoint phi (sibs : list sib) (count : N) : N :=
+  match sibs with [] => 0 | s :: l => (written s + count) / MAX + phi l count end.
+
+Lemma phi_app A B c : phi (A ++ B) c = phi A c + phi B c.
+Proof. induction A as [|s A IH]; cbn [phi app]; [reflexivity|]. rewrite IH. lia. Qed.
+
+Lemma phi_shift T c l : T <= c -> phi (map (add_written T) l) (c - T) = phi l c.
+Proof.
+  intro H. induction l as [|s l IH]; cbn [phi map]; [reflexivity|]. rewrite IH.
+  unfold add_written. cbn [written]. replace (written s + T + (c - T)) with (written s + c) by lia. reflexivity.
+Qed.
+
+Lemma phi_inc l c : phi (map inc_inner l) c = phi l c.
+Proof. induction l as [|s l IH]; cbn [phi map]; [reflexivity|]. rewrite IH. reflexivity. Qed.
+
+Lemma phi_small l c : Forall (fun s => written s + c < MAX) l -> phi l c = 0.
+Proof.
+  induction 1 as [|s l Hs Hl IH]; cbn [phi]; [reflexivity|]. rewrite IH, N.div_small by exact Hs. reflexivity.
+Qed.
+
+Lemma phi_bound l c :
+  Forall (fun s => written s <= MAX) l -> phi l c <= N.of_nat (length l) * (1 + c / MAX).
+Proof.
+  induction 1 as [|s l Hs Hl IH]; cbn [phi length]; [lia|].
+  assert (H1 : (written s + c) / MAX <= 1 + c / MAX).
+  { replace (1 + c / MAX) with ((1 * MAX + c) / MAX) by (rewrite N.div_add_l by lia; reflexivity).
+    apply N.div_le_mono; lia. }
+  lia.
+Qed.
+
+Definition ok_or_logint {X} (r : res X) : Prop := (exists x, r = Ok x) \/ r = Err E_LOGINT.
+
+Lemma write_loop_total : forall fuel buf count st,
+  winv st -> count = blen buf ->
+  1 + phi (w_sibs st) count + (if count =? 0 then 0 else 1) <= N.of_nat fuel ->
+  ok_or_logint (write_loop fuel buf count st).
+Proof.
+  induction fuel as [|f IH]; intros buf count st Hinv Hc Hf; [destruct (count =? 0); lia|].
+  cbn [LybChunk.write_loop].
+  destruct (wscan (w_sibs st) count) as [tw full] eqn:Ew.
+  pose proof Hinv as (Hlen & Hholes & Hw).
+  destruct (wscan_facts _ _ Hw _ _ Ew) as (Htw & HT & Hfull).
+  fold (stA st tw buf). rewrite !stA_if, !skip_if, !cnt_if.
+  assert (Hna : existsb (fun s => MAX <? written s) (w_sibs (stA st tw buf)) = false)
+    by (apply no_assert_w; exact HT).
+  rewrite Hna, andb_false_r.
+  destruct full as [k|].
+  - destruct Hfull as (inner & s & outer & Es & Hk & Hs & Hinner).
+    destruct st as [sibs out len]. cbn [w_sibs w_out w_len] in Es, Ew, HT, Hlen, Hw, Hf |- *. subst sibs.
+    unfold stA. cbn [w_sibs w_out w_len].
+    rewrite map_app. cbn [map].
+    assert (Hk' : length (map (add_written tw) outer) = k) by (rewrite map_length; exact Hk).
+    rewrite <- Hk'.
+    rewrite get_level_mid.
+    rewrite map_levels_set by reflexivity.
+    rewrite exists_level_outer by reflexivity.
+    destruct (existsb (fun s0 : sib => inner_chunks s0 =? IMAX) (map (add_written tw) outer)) eqn:Elog;
+      [right; reflexivity|].
+    rewrite map_levels_outer by reflexivity.
+    set (data := firstn (N.to_nat tw) buf) in *.
+    change (ok_or_logint (write_loop f (skipn (N.to_nat tw) buf) (count - tw) (st3 inner s outer out len tw data))).
+    assert (Hd : length data = N.to_nat tw) by (unfold data; rewrite firstn_length; lia).
+    apply IH.
+    + apply close_inv; assumption.
+    + rewrite skipn_length. lia.
+    + unfold st3. cbn [w_sibs]. rewrite phi_app. cbn [phi written]. rewrite phi_inc, !phi_shift by exact Htw.
+      rewrite phi_app in Hf. cbn [phi] in Hf.
+      assert (E1 : (written s + count) / MAX = 1 + (count - tw) / MAX).
+      { replace (written s + count) with (1 * MAX + (count - tw)) by lia. rewrite N.div_add_l by lia. reflexivity. }
+      rewrite E1 in Hf. rewrite N.add_0_l.
+      destruct (count =? 0) eqn:Ec; destruct (count - tw =? 0) eqn:Ec'; lia.
+  - destruct Hfull as [Etw Hlt]. subst tw.
+    destruct (count =? 0) eqn:Ec; [left; eexists; reflexivity|].
+    apply IH.
+    + apply stA_inv; [exact Hinv|exact HT|lia].
+    + rewrite skipn_length. lia.
+    + unfold stA. cbn [w_sibs]. rewrite phi_shift by lia. rewrite (phi_small _ _ Hlt).
+      rewrite N.sub_diag. cbn [N.eqb]. rewrite (phi_small _ _ Hlt) in Hf. lia.
+Qed.
+
+Lemma lyb_write_total bs st : winv st -> ok_or_logint (lyb_write bs st).
+Proof.
+  intro Hinv. unfold LybChunk.lyb_write. apply write_loop_total; [exact Hinv|reflexivity|].
+  destruct Hinv as (_ & _ & Hw). pose proof (phi_bound _ (blen bs) Hw) as Hb.
+  unfold LybChunk.loop_fuel.
+  destruct (blen bs =? 0); nia.
+Qed.
+
+Lemma run_write_total : forall script st d,
+  winv st -> bracketed script (length (w_sibs st)) = Some d ->
+  ok_or_logint (run_write_from script st).
+Proof.
+  induction script as [|o script IH]; intros st d Hinv Hb; cbn [LybChunk.run_write_from bracketed] in *.
+  - left. eexists. reflexivity.
+  - destruct o as [|bs|]; cbn [LybChunk.write_op].
+    + destruct (lyb_write_start_siblings st) as [st0|e] eqn:Eo.
+      * destruct (start_sim _ _ Hinv Eo) as [Hinv0 _]. apply (IH st0 d Hinv0).
+        unfold LybChunk.lyb_write_start_siblings in Eo. destruct (existsb _ _); [discriminate|].
+        inversion Eo; subst st0. cbn [w_sibs length]. rewrite map_length. exact Hb.
+      * right. unfold LybChunk.lyb_write_start_siblings in Eo. destruct (existsb _ _); [|discriminate].
+        inversion Eo. reflexivity.
+    + destruct (lyb_write_total bs st Hinv) as [(st0 & Eo)|Eo]; rewrite Eo; [|right; reflexivity].
+      destruct (write_sim _ _ _ Hinv Eo) as [Hinv0 _]. apply (IH st0 d Hinv0).
+      unfold LybChunk.lyb_write in Eo. apply write_loop_depth in Eo. rewrite Eo. exact Hb.
+    + destruct (lyb_write_stop_siblings st) as [st0|e] eqn:Eo.
+      * destruct (stop_sim _ _ Hinv Eo) as [Hinv0 _].
+        unfold LybChunk.lyb_write_stop_siblings in Eo. destruct (w_sibs st) as [|s outer] eqn:Es; [discriminate|].
+        inversion Eo; subst st0. cbn [length] in Hb. apply (IH _ d Hinv0). cbn [w_sibs]. exact Hb.
+      * exfalso. unfold LybChunk.lyb_write_stop_siblings in Eo. destruct (w_sibs st) as [|s outer] eqn:Es; [|discriminate].
+        cbn [length] in Hb. discriminate.
+Qed.
+
+(* a well-bracketed script is written successfully unless an inner_chunks counter hits LYB_INCHUNK_MAX:
+   no fuel exhaustion, no failing assert, no stop without siblings *)
+Theorem write_total_gen script :
+  well_bracketed script = true -> ok_or_logint (run_write script).
+Proof.
+  intro Hb. unfold well_bracketed in Hb. destruct (bracketed script 0) as [d|] eqn:E; [|discriminate].
+  apply (run_write_total script w_init d winv_init). exact E.
+Qed.
+
 (* lyb_chunk_roundtrip, parametric in the constants *)
 Theorem chunk_roundtrip_gen script st :
   well_bracketed script = true -> run_write script = Ok st ->
@@ -978,6 +1101,14 @@ Proof. reflexivity. Qed.
 
 Lemma consts_meta : Consts.LYB_META_BYTES = Consts.LYB_SIZE_BYTES + Consts.LYB_INCHUNK_BYTES.
 Proof. reflexivity. Qed.
+
+Theorem lyb_write_total_proof script :
+  well_bracketed script = true ->
+  (exists st, lyb_run_write script = Ok st) \/ lyb_run_write script = Err E_LOGINT.
+Proof.
+  apply (write_total_gen Consts.LYB_SIZE_MAX Consts.LYB_SIZE_BYTES Consts.LYB_INCHUNK_MAX
+           Consts.LYB_INCHUNK_BYTES Consts.LYB_META_BYTES consts_max_pos consts_mask consts_fit consts_meta).
+Qed.
 
 (* lyb_chunk_roundtrip for the model of the code *)
 Theorem lyb_chunk_roundtrip_proof script st :
